@@ -242,17 +242,21 @@ def exercise(ctx, prs, label, rng, budget, none_first=False, zero_first=False, w
             objs = world.objs.get(kind, [])
             for obj, path in ([objs[0], objs[-1]] if len(objs) > 1 else objs):
                 for p in plist:
-                    seen_v = []
-                    for i in range(48):
+                    import enum as _enum
+                    seen_v, is_enum = [], False
+                    for i in range(600):
                         try:
                             v = p.gen(random.Random(i))
                         except Exception:  # noqa
                             continue
+                        is_enum = is_enum or isinstance(v, _enum.Enum)
                         if repr(v) not in seen_v:
                             seen_v.append(repr(v))
                             fixed[len(todo)] = v
                             todo.append((p, obj, path))
-                        if len(seen_v) >= 10:
+                        # EVERY member the generator knows for an enumeration (fixed seeds: the same set in every run), ten
+                        # values of anything else
+                        if (len(seen_v) >= 10 and not is_enum) or (i >= 48 and not is_enum) or len(seen_v) >= 80:
                             break
     # the same property of the same object is assigned several times in a history (Length then float, None then a value,
     # one enum member then another): a setter that is right on a fresh element may be wrong on the one it left behind
@@ -945,6 +949,105 @@ def fills(ctx):
             ctx.fail("fill:invalid-xml", f"{part.partname} after the fill histories: {msg}", {})
 
 
+def shared_relationships(ctx):
+    """independence ACROSS objects that share a relationship: shapes (click actions) and runs on one slide given the SAME
+    address hold one relationship between them; assigning another address (or None) to one of them leaves what every other
+    one reads, now and after save + re-open"""
+    from pptx import Presentation
+    from pptx.enum.shapes import MSO_SHAPE
+
+    rng = ctx.rng
+    for trial in range(6 if ctx.quick else 60):
+        prs = Presentation()
+        slide = prs.slides.add_slide(prs.slide_layouts[6])
+        urls = ["http://example.com/%d" % k for k in range(3)]
+        holders = []
+        scripted = trial == 0    # in every run: two click actions and two runs on one address, one of each re-assigned, then cleared
+        for k in range(4 if scripted else rng.randint(3, 6)):
+            sp = slide.shapes.add_shape(MSO_SHAPE.RECTANGLE, 0, 0, 99, 99)
+            if (k < 2) if scripted else (rng.random() < 0.6):
+                h = sp.click_action.hyperlink
+                get = lambda sp=sp: sp.click_action.hyperlink.address  # noqa: E731
+                put = lambda v, sp=sp: setattr(sp.click_action.hyperlink, "address", v)  # noqa: E731
+                what = "click_action.hyperlink"
+            else:
+                r = sp.text_frame.paragraphs[0].add_run(); r.text = "t"
+                get = lambda r=r: r.hyperlink.address  # noqa: E731
+                put = lambda v, r=r: setattr(r.hyperlink, "address", v)  # noqa: E731
+                what = "run.hyperlink"
+            holders.append([what, get, put, None])
+        hist = []
+        script = [(0, urls[0]), (1, urls[0]), (2, urls[0]), (3, urls[0]), (0, urls[1]), (2, urls[1]), (1, None), (3, None), (0, urls[0])] if scripted else []
+        for step in range(len(script) or rng.randint(3, 10)):
+            i, v = script[step] if scripted else (rng.randrange(len(holders)), rng.choice(urls + [urls[0], None]))
+            holders[i][2](v); holders[i][3] = v
+            hist.append((i, v))
+            got = [h[1]() for h in holders]
+            want = [h[3] for h in holders]
+            ctx.case(key=("shared-rel", tuple(h[0] for h in holders), tuple(hist)))
+            if got != want:
+                j = next(k for k in range(len(got)) if got[k] != want[k])
+                ctx.fail("independence:shared-relationship", f"holders {[h[0] for h in holders]}, assignments {hist}: holder {j} ({holders[j][0]}) reads {got[j]!r}, "
+                         f"the last address assigned to it is {want[j]!r}", {"holders": [h[0] for h in holders], "history": hist})
+                break
+        else:
+            b = io.BytesIO(); prs.save(b)
+            sl2 = Presentation(io.BytesIO(b.getvalue())).slides[0]
+            got = []
+            for sh, h in zip(sl2.shapes, holders):
+                got.append(sh.click_action.hyperlink.address if h[0].startswith("click") else sh.text_frame.paragraphs[0].runs[0].hyperlink.address)
+            if got != [h[3] for h in holders]:
+                ctx.fail("independence:shared-relationship", f"holders {[h[0] for h in holders]}, assignments {hist}: after save and re-open the addresses read {got}", {"history": hist})
+        ctx.count("shared-relationship-histories")
+
+
+def point_order(ctx):
+    """the points of ONE series formatted in any order of their indexes (descending, interleaved, the same one twice): each
+    point reads back what it was given - through new proxies, and after save + re-open - and the series holds one c:dPt per
+    formatted point"""
+    from pptx import Presentation
+    from pptx.chart.data import CategoryChartData
+    from pptx.dml.color import RGBColor
+    from pptx.enum.chart import XL_CHART_TYPE
+
+    rng = ctx.rng
+    orders = [[3, 1, 2, 0], [2, 0, 2, 1], [4, 0], [1, 1, 0]] + [[rng.randrange(5) for _ in range(rng.randint(2, 6))] for _ in range(2 if ctx.quick else 30)]
+    for order in orders:
+        for ct in (XL_CHART_TYPE.COLUMN_CLUSTERED, XL_CHART_TYPE.LINE_MARKERS):
+            prs = Presentation(); slide = prs.slides.add_slide(prs.slide_layouts[6])
+            cd = CategoryChartData(); cd.categories = list("abcde"); cd.add_series("s", [1, 2, 3, 4, 5])
+            slide.shapes.add_chart(ct, 0, 0, 99, 99, cd)
+            ser = lambda p_=prs: p_.slides[0].shapes[0].chart.plots[0].series[0]  # noqa: E731
+            want = {}
+            for step, i in enumerate(order):
+                rgb = RGBColor(10 * step + 1, i, 200)
+                pt = ser().points[i]
+                pt.format.fill.solid(); pt.format.fill.fore_color.rgb = rgb
+                want[i] = [str(rgb), None]
+                if ct == XL_CHART_TYPE.LINE_MARKERS:
+                    ser().points[i].marker.size = 5 + step
+                    want[i][1] = 5 + step
+            case = {"chart": ct.name, "order": order}
+            ctx.case(key=("point-order", ct.name, tuple(order))); ctx.count("point-order-histories")
+
+            def reads(series):
+                out = {}
+                for i in want:
+                    p_ = series.points[i]
+                    f = p_.format.fill
+                    out[i] = [str(f.fore_color.rgb) if f.type is not None else None, p_.marker.size if want[i][1] is not None else None]
+                return out
+            for label, series in (("", ser()), (" after save and re-open", None)):
+                if series is None:
+                    b = io.BytesIO(); prs.save(b)
+                    series = Presentation(io.BytesIO(b.getvalue())).slides[0].shapes[0].chart.plots[0].series[0]
+                idxs = [int(x) for x in series._element.xpath("./c:dPt/c:idx/@val")]
+                got = reads(series)
+                if got != want or sorted(set(idxs)) != sorted(idxs):
+                    ctx.fail("point-format:order", f"{ct.name}: points formatted in the order {order}{label} read {got}, assigned {want}; c:dPt indexes in the series: {idxs}", case)
+                    break
+
+
 def oplab_ns():
     return "http://schemas.openxmlformats.org/drawingml/2006/main"
 
@@ -1202,6 +1305,8 @@ def correspond(ctx):
     stores(ctx)
     colours(ctx)
     fills(ctx)
+    shared_relationships(ctx)
+    point_order(ctx)
     rng = ctx.rng
     reps = 6 if ctx.quick else 20
     for r in range(reps):
